@@ -7,6 +7,9 @@ Line protocol for the bit-level coders.
 ```
 bits.stack W | init | op | op …         init: new | cap n | compressed ws
 bits.queue W | init | op | op …         init: new | cap n | compressed ws | dec ws
+bits.bstack W cap | op | op …           a stack coder over a sink that accepts `cap` words in total
+bits.bqueue W cap | op | op …           ops: `w b` -> ok|full, `ws bits` -> ok|full@<accepted>, `r` (stack), `len`, `raw`,
+                                         `export` (into_compressed; ends the line) -> words|full
 bits.stacksweep W n                      every bit string of length n  ->  "count digest"
 bits.queuesweep W n
 bits.golomb N v                          codebook only: "prefix suffix"
@@ -356,8 +359,57 @@ def golombDecCase (N : Nat) (h : UInt64) (bs : List Bool) : UInt64 :=
   | .ok (rest, .error _) => digestStep (digestStep h 0xfffd) rest.length
   | .error _ => digestStep h 0xfffc
 
+/-- one operation on a coder over a bounded sink -/
+def boundedOp (W cap : Nat) (isStack : Bool) (c : Coder) (seg : List String) :
+    Option (Coder × String × Bool) :=
+  match seg with
+  | ["w", b] => do
+      let b ← parseHex b
+      if b > 1 then none else
+      let (c', ok) := writeBitB W cap c (b == 1)
+      some (c', if ok then "ok" else "full", false)
+  | ["ws", bs] => do
+      let bs ← parseBits bs
+      let (c', acc, ok) := writeBitsB W cap c bs
+      some (c', if ok then "ok" else "full@" ++ toHex acc.length, false)
+  | ["r"] =>
+      if !isStack then none else
+      let (b, c') := readBit W c
+      some (c', showOptBit b, false)
+  | ["len"] =>
+      match len W c with
+      | .ok n => some (c, toHex n, false)
+      | .error f => some (c, faultStr f, true)
+  | ["raw"] => some (c, showRaw c, false)
+  | ["export"] =>
+      let r := if isStack then Stack.intoCompressedB W cap c else Queue.intoCompressedB cap c
+      match r with
+      | some ws => some (c, showList ws.reverse, true)
+      | none => some (c, "full", true)
+  | _ => none
+
+def boundedOps (W cap : Nat) (isStack : Bool) : Coder → List (List String) → List String → List String
+  | _, [], acc => acc.reverse
+  | c, seg :: rest, acc =>
+    match boundedOp W cap isStack c seg with
+    | none => ("bad-op" :: acc).reverse
+    | some (c', out, dead) =>
+      if dead then (out :: acc).reverse else boundedOps W cap isStack c' rest (out :: acc)
+
 def handle (segs : List (List String)) : String :=
   match segs with
+  | ["bits.bstack", w, cap] :: ops =>
+    match parseHex w, parseHex cap with
+    | some W, some cap =>
+      if !okW W then "unsupported" else
+      " | ".intercalate (boundedOps W cap true Bits.empty ops ["ok"])
+    | _, _ => "bad-op"
+  | ["bits.bqueue", w, cap] :: ops =>
+    match parseHex w, parseHex cap with
+    | some W, some cap =>
+      if !okW W then "unsupported" else
+      " | ".intercalate (boundedOps W cap false Bits.empty ops ["ok"])
+    | _, _ => "bad-op"
   | [kind, w] :: init :: ops =>
     if kind != "bits.stack" && kind != "bits.queue" then "bad-op" else
     match parseHex w with
